@@ -136,6 +136,7 @@ fn main() {
         }
     };
     writeln!(out, "OPEN ok").unwrap();
+    out.flush().unwrap();
     {
         let k2 = Arc::clone(&kvs);
         std::thread::spawn(move || {
